@@ -13,7 +13,7 @@ let show status evs (x: xconn) =
   Printf.printf "%s ev=%s st=%d out=%d:%s in=%d:%s wr=%d rd=%d reg=%d pend=%d wire=%d:%s fin=%d\n" status
     (if es = [] then "-" else String.concat "," es) (st_code c.st)
     (List.length c.outb) (fnv_of_bytes c.outb) (List.length c.inb) (fnv_of_bytes c.inb)
-    (b2i c.writing) (b2i c.rd_chan) (b2i c.registered) (List.length c.pending)
+    (b2i c.writing) (b2i c.rd_chan) (b2i c.registered) (List.length c.pending + List.length x.xtimers)
     (List.length c.wire) (fnv_of_bytes c.wire) (b2i c.fin);
   flush stdout
 let parse_k s =
@@ -45,11 +45,22 @@ let () =
           | "RUN" :: ks ->
               (* one RunOne per functor present at batch start; a scripted answer is consumed only
                  by a functor that really calls write() *)
-              let n = List.length !c.xbase.pending in
+              let n = List.length !c.xbase.pending + List.length !c.xtimers in
               let ks = ref (List.map parse_k ks) in
               let cur = ref !c and evs = ref [] and res = ref None in
               for _ = 1 to n do
                 if !res = None then begin
+                  if timer_due !cur.xtimers then begin
+                    (* the oldest functor of the real queue is the addTimerInLoop of a foreign forceCloseWithDelay() *)
+                    match xstep !cur XRunTimer with
+                    | Ok (x', e) ->
+                        let c' = x'.xbase in
+                        cur := x';
+                        steps := !steps @ [Printf.sprintf "-/%d/%d/%d/%d/%d"
+                                   (List.length c'.outb) (b2i c'.writing) (st_code c'.st) (List.length c'.wire) (b2i c'.fin)]
+                    | Rejected -> res := Some Rejected
+                    | Fault -> res := Some Fault
+                  end else
                   match !cur.xbase.pending with
                   | [] -> ()
                   | f :: _ ->
